@@ -59,7 +59,6 @@ pub fn c01_q_set2_keyboard_add_byte() {
 /// C01 thorough: four symbolic bytes from new() (all 2^32 streams) in lock-step with the
 /// reference automaton; independent of the induction argument.
 #[kani::proof]
-#[kani::unwind(300)]
 pub fn c01_t_set2_stream4() {
     let mut s = ScancodeSet2::new();
     let mut c = 0u8;
@@ -122,7 +121,6 @@ pub fn c02_q_set1_keyboard_add_byte() {
 
 /// C02 thorough: four symbolic bytes from new() in lock-step with the reference automaton.
 #[kani::proof]
-#[kani::unwind(300)]
 pub fn c02_t_set1_stream4() {
     let mut s = ScancodeSet1::new();
     let mut c = 0u8;
